@@ -46,8 +46,10 @@ PLayout(i) == CASE i = 1 -> <<1>>                                \* 5QI
 RECURSIVE Sum(_)
 Sum(s) == IF s = <<>> THEN 0 ELSE Head(s) + Sum(Tail(s))
 Pow256(w) == CASE w = 0 -> 1 [] w = 1 -> 256 [] w = 2 -> 65536 [] w = 3 -> 16777216
-\* the largest value of a field: flow label is 20 bits in a 3-octet field
-FieldMax(t, k) == IF t = 128 THEN 1048575 ELSE Pow256(Layout(t)[k]) - 1
+\* the largest value of a field of a WELL-FORMED component: the flow label is 20 bits in a 3-octet field,
+\* a VID 12 bits and PCP/DEI 4 bits (the upper bits of those fields are spare)
+FieldMax(t, k) == CASE t = 128 -> 1048575 [] t \in {131, 132} -> 4095 [] t \in {133, 134} -> 15
+                    [] OTHER -> Pow256(Layout(t)[k]) - 1
 B(b) == IF b THEN 1 ELSE 0
 
 \* big-endian octets of v in w octets, and back
